@@ -6,7 +6,8 @@ emits, and PySpark's reading of the same builder calls (the specification).
 * `BOp` / `update` : one builder call on a spec value (what the call stores in the sqlglot
   `exp.Window`): `partitionBy` / `orderBy` extend or replace according to `Gen`, order keys carry what
   `Column.asc()` … build (`Gen.ord_*`) or — for a bare name / column — what `orderBy` does with a
-  non-`Ordered` expression (`Gen.orderByBareWrap`); `rowsBetween` / `rangeBetween` store
+  non-`Ordered` expression (`Gen.orderByColumnWrap` for a plain column, `Gen.orderByExprWrap` for any other
+  expression key); `rowsBetween` / `rangeBetween` store
   `Gen.rowsBetweenFrame` / `Gen.rangeBetweenFrame` (built from `Gen.getValueAndSide`).
 * `Heap` / `applyOp` : specs as mutable objects; every builder works on `self.copy()` iff the `Gen`
   flag says so (immutability theorem).
@@ -26,10 +27,20 @@ inductive KeyForm
   | bare | asc | desc | ascNullsFirst | ascNullsLast | descNullsFirst | descNullsLast
   deriving DecidableEq, Repr, Inhabited
 
+/-- one argument of `orderBy`.  A plain key (`expr = none`) is the column `name`, given as a string or
+    `col(name)`.  An expression key (`expr = some e`: `-col`, `col + 1`, `when(…)…`) is ordered by the value
+    of `e` on each row; that value is made available to the evaluator as a computed column called `name`
+    (`keyCols` / `extend` below), so `name` must not be a column of the table. -/
 structure UKey where
   name : Name
   form : KeyForm
+  expr : Option Expr := none
+  /-- the python Column's `.expression` is an `exp.Alias` (every `F.<function>(…)` result is auto-aliased,
+      e.g. `when(…)`, `abs(c)`, `coalesce(a, b)`; operators like `-c`, `c + 1` are not) -/
+  aliased : Bool := false
   deriving DecidableEq, Repr, Inhabited
+
+def UKey.isExpr (k : UKey) : Bool := k.expr.isSome
 
 inductive BOp
   | partitionBy (cols : List Name)
@@ -47,6 +58,8 @@ def BOp.isOrder : BOp → Bool | .orderBy _ => true | _ => false
 structure EKey where
   name : Name
   ordered : Option (Bool × Option Bool)
+  /-- the item still carries the Column's alias (`<expr> AS <alias>` inside ORDER BY: the engine rejects it) -/
+  aliased : Bool := false
   deriving DecidableEq, Repr, Inhabited
 
 structure SpecVal where
@@ -57,17 +70,26 @@ structure SpecVal where
 
 /-- the source-level decisions the builders' meaning hinges on -/
 structure Flags where
-  bareWrap : Option (Bool × Option Bool)
+  /-- what `orderBy` does with a plain column key that states no ordering -/
+  colWrap : Option (Bool × Option Bool)
+  /-- … and with any other expression key that states no ordering -/
+  exprWrap : Option (Bool × Option Bool)
   partExtends : Bool
   orderExtends : Bool
   partIndexesFirst : Bool
   orderIndexesFirst : Bool
+  /-- `orderBy` takes `Column.expression` (alias included) rather than `Column.column_expression` -/
+  orderKeepsAlias : Bool
   deriving DecidableEq, Repr
 
-def genFlags : Flags := ⟨orderByBareWrap, partitionByExtends, orderByExtends, partitionByIndexesFirst, orderByIndexesFirst⟩
+def genFlags : Flags := ⟨orderByColumnWrap, orderByExprWrap, partitionByExtends, orderByExtends, partitionByIndexesFirst, orderByIndexesFirst, orderByKeepsAlias⟩
 
-def formOrdered (F : Flags) : KeyForm → Option (Bool × Option Bool)
-  | .bare => F.bareWrap
+/-- the wrap decision for a key without a stated ordering, by the class of its sqlglot expression -/
+def bareWrapOf (F : Flags) (k : UKey) : Option (Bool × Option Bool) := if k.isExpr then F.exprWrap else F.colWrap
+
+def formOrdered (F : Flags) (k : UKey) : Option (Bool × Option Bool) :=
+  match k.form with
+  | .bare => bareWrapOf F k
   | .asc => some ord_asc
   | .desc => some ord_desc
   | .ascNullsFirst => some ord_asc_nulls_first
@@ -75,7 +97,10 @@ def formOrdered (F : Flags) : KeyForm → Option (Bool × Option Bool)
   | .descNullsFirst => some ord_desc_nulls_first
   | .descNullsLast => some ord_desc_nulls_last
 
-def emitKey (F : Flags) (k : UKey) : EKey := ⟨k.name, formOrdered F k.form⟩
+/-- `asc()` / `desc()` / … are built from `column_expression` and drop the alias; a key without them keeps
+    whatever `orderBy` reads off the Column -/
+def emitKey (F : Flags) (k : UKey) : EKey :=
+  ⟨k.name, formOrdered F k, F.orderKeepsAlias && k.aliased && decide (k.form = .bare)⟩
 
 def update (F : Flags) (v : SpecVal) : BOp → SpecVal
   | .partitionBy cs => { v with part := (if F.partExtends then v.part else []) ++ cs }
@@ -214,20 +239,46 @@ def sparkDef (ops : List BOp) : Option WinDef := sparkFrom {} ops
 
 /-! ### the two columns the property compares -/
 
+/-- ASSUMED (DuckDB): `ORDER BY <expr> AS <alias>` inside OVER (…) is a syntax error -/
+def clauseRejected (v : SpecVal) : Bool := v.order.any (·.aliased)
+
+/-- the expression order keys of a chain, as (computed column name, expression) -/
+def keyCols : List BOp → List (Name × Expr)
+  | [] => []
+  | .orderBy ks :: ops => ks.filterMap (fun k => k.expr.map (fun e => (k.name, e))) ++ keyCols ops
+  | _ :: ops => keyCols ops
+
+/-- the table with the values of the expression keys appended as computed columns (ASSUMED of both
+    engines: `ORDER BY <expr>` inside a window orders by the value of `<expr>` on each input row) -/
+def extend (T : Table) (items : List (Name × Expr)) : Table :=
+  { cols := T.cols ++ items.map (·.1), rows := T.rows.map (fun r => r ++ items.map (fun it => eval T.cols r it.2)) }
+
+theorem extend_rows_length (T : Table) (items : List (Name × Expr)) : (extend T items).rows.length = T.rows.length := by
+  simp [extend]
+
+/-- the computed key columns do not shadow or reuse a column of the table (checked by the driver) -/
+def keysFresh (T : Table) (ops : List BOp) : Bool :=
+  let names := (keyCols ops).map (·.1)
+  names.all (fun n => !T.cols.contains n) && decide names.Nodup
+
 /-- what the emitted clause evaluates to on the engine -/
 def modelColumn (T : Table) (ops : List BOp) (fn : WFn) : Option (List Val) :=
-  if builderRaises genFlags ops then none
-  else (engineDef (emit ops)).map (fun w => windowColumn T w fn)
+  if builderRaises genFlags ops || clauseRejected (emit ops) then none
+  else (engineDef (emit ops)).map (fun w => windowColumn (extend T (keyCols ops)) w fn)
 
 /-- what Spark computes -/
 def specColumn (T : Table) (ops : List BOp) (fn : WFn) : Option (List Val) :=
-  (sparkDef ops).map (fun w => windowColumn T w fn)
+  (sparkDef ops).map (fun w => windowColumn (extend T (keyCols ops)) w fn)
 
 /-! ### named scope hypotheses (decidable) -/
 
-def BOp.hasBareKey : BOp → Bool
-  | .orderBy ks => ks.any (fun k => decide (k.form = .bare))
-  | _ => false
+/-- a key that states no ordering is wrapped as ascending NULLS FIRST (Spark's default) -/
+def UKey.explicitOk (F : Flags) (k : UKey) : Bool :=
+  decide (k.form ≠ .bare) || decide (bareWrapOf F k = some (false, some true))
+
+def BOp.bareKeysOk (F : Flags) : BOp → Bool
+  | .orderBy ks => ks.all (UKey.explicitOk F)
+  | _ => true
 
 /-- the sentinel-adjacent value `-(2^63-1)` (= `-sys.maxsize`, the pre-2.1 PySpark idiom for "unbounded"):
     as a frame *start* PySpark maps it to UNBOUNDED PRECEDING (`start <= _PRECEDING_THRESHOLD`),
@@ -251,10 +302,10 @@ def BOp.edgeOk (strict : Bool) : BOp → Bool
   | .rangeBetween s e => startExact s && endExact e
   | _ => true
 
-/-- every order key says where NULLs go: either `orderBy` wraps bare keys as ascending NULLS FIRST
-    (the repaired source) or the program passes no bare name / column to `orderBy` -/
-def H_orderKeysExplicit (F : Flags) (ops : List BOp) : Prop :=
-  F.bareWrap = some (false, some true) ∨ ops.all (fun op => !op.hasBareKey) = true
+/-- every order key says where NULLs go: a key given without asc()/desc()/… — a name, a column or any
+    other expression — is wrapped by `orderBy` as ascending NULLS FIRST (decided per expression class by
+    the generated `orderByColumnWrap` / `orderByExprWrap`), or the program passes no such key -/
+def H_orderKeysExplicit (F : Flags) (ops : List BOp) : Prop := ops.all (BOp.bareKeysOk F) = true
 
 /-- `partitionBy` / `orderBy` are each called at most once (or the source replaces instead of extending) -/
 def H_buildersOnce (F : Flags) (ops : List BOp) : Prop :=
@@ -262,6 +313,10 @@ def H_buildersOnce (F : Flags) (ops : List BOp) : Prop :=
 
 /-- no builder is called without arguments (or the source does not index `cols[0]`) -/
 def H_nonEmptyArgs (F : Flags) (ops : List BOp) : Prop := builderRaises F ops = false
+
+/-- no ORDER BY item of the emitted clause carries an alias: no key without asc()/desc()/… is a function
+    result (`when(…)`, `abs(c)`, …) or an aliased Column — or `orderBy` reads `column_expression` -/
+def H_keysUnaliased (F : Flags) (ops : List BOp) : Prop := clauseRejected (emitWith F ops) = false
 
 /-- no frame boundary is the edge value `-(2^63-1)` (or the source treats it as PySpark does) -/
 def H_noEdgeBound (ops : List BOp) : Prop := ops.all (BOp.edgeOk true) = true
@@ -274,6 +329,7 @@ instance (F : Flags) (ops : List BOp) : Decidable (H_orderKeysExplicit F ops) :=
 instance (F : Flags) (ops : List BOp) : Decidable (H_buildersOnce F ops) := by
   unfold H_buildersOnce; exact inferInstance
 instance (F : Flags) (ops : List BOp) : Decidable (H_nonEmptyArgs F ops) := by unfold H_nonEmptyArgs; exact inferInstance
+instance (F : Flags) (ops : List BOp) : Decidable (H_keysUnaliased F ops) := by unfold H_keysUnaliased; exact inferInstance
 instance (ops : List BOp) : Decidable (H_noEdgeBound ops) := by unfold H_noEdgeBound; exact inferInstance
 instance (ops : List BOp) : Decidable (H_noRangeEdgeBound ops) := by unfold H_noRangeEdgeBound; exact inferInstance
 
@@ -282,7 +338,8 @@ def violated (ops : List BOp) : List String :=
   (if decide (H_orderKeysExplicit genFlags ops) then [] else ["H_orderKeysExplicit"]) ++
   (if decide (H_buildersOnce genFlags ops) then [] else ["H_buildersOnce"]) ++
   (if decide (H_noRangeEdgeBound ops) then [] else ["H_noRangeEdgeBound"]) ++
-  (if decide (H_nonEmptyArgs genFlags ops) then [] else ["H_nonEmptyArgs"])
+  (if decide (H_nonEmptyArgs genFlags ops) then [] else ["H_nonEmptyArgs"]) ++
+  (if decide (H_keysUnaliased genFlags ops) then [] else ["H_keysUnaliased"])
 
 /-! ### what Spark's analyzer additionally requires of (window, function) — used to scope the stream -/
 
